@@ -33,6 +33,14 @@ checks = {
    text='12 golden directories written by the pinned release must open with identical contents, full search matrix, constraints, and stay loadable after writes; directories written by the current code are walked by an independent decoder that encodes the pinned format.', ref='4/C18'),
  'C19': dict(cat='exploration', tech='mutation fuzzing of directories and search arguments under recover() and a CPU-time hang guard, child-per-batch isolation; model cross-check of results of unevaluable queries',
    text='Thousands of byte- and JSON-level mutants of valid directories plus stray entries, and a slice of the field x operator x probe-kind cross product, are driven through ~70 API calls each under panic/hang guards.', ref='4/C19'),
+ 'C05': dict(cat='fault_enumeration', tech='FS-shim crash snapshotter: every crash state (torn writes included) of each generated history materialised and judged through a fresh handle + independent decoder',
+   text='Every file-system sub-step of every call of a generated history yields a crash state; all distinct crash states are reopened, classified (clean / reported / unreadable) and compared with the decoded files; Repair convergence and per-object all-or-nothing are checked. Exhaustive per history, sampled over histories.', ref='4/C05'),
+ 'C06': dict(cat='fault_enumeration', tech='before/after observation monitor around every rejected call; FS-shim fault injector enumerating every single EIO/ENOSPC fault of each generated history',
+   text='All rejection classes are exercised with the complete observation and the file hashes compared around the call; every single storage fault of each fault history is injected and the outcome classified (no trace / reported and repaired / violation).', ref='4/C06'),
+ 'C10': dict(cat='exploration', tech='virtual-clock monitor (time.Sleep of the package parked on a semaphore): flusher deadlines decided in flusher iterations; independent directory decoder; second handle',
+   text='The flusher only runs when the history ticks the virtual clock, so visibility with a frozen flusher, threshold- and timeout-driven flushes, Close/FlushAll completeness and never-resurrected deletes are decided without wall-clock time.', ref='4/C10'),
+ 'C17': dict(cat='exploration', tech='tree-hash monitor + error-class oracle over shape pairs; model sweep + child survival over live settings switches with pending writes and flusher ticks',
+   text='8 shape changes x 6 stored configurations x 18 operations must be refused with ErrStructureChanged and leave every byte untouched; constraint/extension changes are refused; Create switching cache/async on a live handle with pending writes must lose nothing.', ref='4/C17'),
 }
 notes = {}
 m = {
